@@ -40,7 +40,7 @@ func IsEditOp(op string) bool {
 	switch op {
 	case "rootset", "rootdel", "oset", "odel", "onest", "replObj", "replArr", "replText",
 		"aadd", "ains", "adel", "amove", "amovefront", "aset", "tedit", "tstyle", "cinc",
-		"trtext", "trins", "trdel", "trstyle", "undo", "redo", "pset", "pclear":
+		"trtext", "trins", "trdel", "trstyle", "undo", "redo", "pset", "pclear", "rootclear":
 		return true
 	}
 	return false
@@ -82,6 +82,11 @@ func ApplyEdit(d *document.Document, s Step) (desc string, err error) {
 		case "pclear":
 			p.Clear()
 			desc = "presence.clear"
+		case "rootclear":
+			for _, k := range []string{"o", "a", "t", "c", "tr", "k0", "k1"} {
+				r.Delete(k)
+			}
+			desc = "root: delete every key"
 		case "rootset":
 			key := []string{"k0", "k1"}[s.A%2]
 			r.SetInteger(key, s.B)
